@@ -30,11 +30,12 @@ func init() {
 	core.Register(&core.Prop{
 		ID:    "C08",
 		Level: "exploration",
-		Rule: "one case = (filter chain of 0..10 entries over all filter names incl. unknown ones, /DecodeParms valid, mutated or type-confused, body = valid encoding / JPEG / crafted bomb / random bytes, then corrupted by bit flips, overwrites, splices, truncation) " +
+		Rule: "one case = (filter chain of 0..10 entries over all filter names incl. unknown ones, /DecodeParms valid, mutated or type-confused, body = valid encoding / JPEG / crafted bomb / JPEG forged marker by marker (scan programs, custom Huffman tables, scan bombs) / JBIG2 forged segment by segment (all region and dictionary types, globals stream) / random bytes, then corrupted by bit flips, overwrites, splices, truncation) " +
 			"x decode path (pdf.DecodeStream on a Getter that may hold indirect and cyclic filter parameters, or MakeFilter+Decode directly with a drawn small memory budget and a chunked source) x consumer behaviour (drain with drawn buffer sizes, or Close early at read k). " +
 			"Chains containing DCTDecode run inside a testing/synctest bubble so that a helper goroutine left behind is detected exactly. non-trivial = body non-empty and at least one filter; distinct = hash of (chain, parameter shape, body length, corruption kinds, path, consumer).",
 		Assumptions: []string{
 			"the source never fails here (I/O failures are C19); every error must therefore be classified as malformed input",
+			"time is simulated: one tick per function entry and loop iteration inside internal/filter/** (counter inserted by a build overlay, no hook in /repo); bound = K*(StreamBudget(rawLen) + bytes produced), K = 24 DCT, 128 JBIG2, 64 others, calibrated on the unchanged tree; applied only when no stage before the last one can expand; the wall-clock watchdog remains as a backstop",
 			"allocation is bounded by a measured proxy: runtime.MemStats.TotalAlloc delta <= 3*StreamBudget(rawLen) + 16*bytes drained + 32 MiB (the per-stream budget limits live working memory, which cannot be observed directly); a process that exceeds RLIMIT_AS dies and is reported as a crash",
 			"output: chained Flate/LZW/RunLength stages multiply their expansion, so no input-proportional output bound exists; draining stops at 24 MiB per run. A lone CCITTFax stream must stay below MaxImagePixels/8 + 1 MiB (its geometry cap); the DCT and JBIG2 geometry caps (up to 2 GiB) are too large to drain per run and are covered only through the allocation proxy",
 		},
